@@ -126,6 +126,8 @@ class RootScope:
             return True
         elif isinstance(expr, expressions.Sizeof):
             return True
+        elif isinstance(expr, expressions.BuiltInOffsetOf):
+            return True
         elif isinstance(expr, declarations.EnumConstantDeclaration):
             return True
         elif isinstance(expr, expressions.Cast):
